@@ -121,6 +121,9 @@ func (h *vLifeH) add(s string) {
 }
 
 // plan: per sender a string over {o, b} (ordinary / crashing message); budget = number of b's (+ spare)
+// restart delay of the actors of this stream (one thorough-tier case uses a delay of more than a second)
+var vLifeDelay = 2 * time.Millisecond
+
 func runLife(t testing.TB, plan []string, spare int, inbox int, stop string) string {
 	e, err := NewEngine(NewEngineConfig())
 	if err != nil {
@@ -162,7 +165,7 @@ func runLife(t testing.TB, plan []string, spare int, inbox int, stop string) str
 			inc := h.inc
 			h.mu.Unlock()
 			return &vLifeRecv{h: h, inc: inc}
-		}, "life", WithID(id), WithMaxRestarts(booms+spare), WithRestartDelay(2*time.Millisecond), WithInboxSize(inbox))
+		}, "life", WithID(id), WithMaxRestarts(booms+spare), WithRestartDelay(vLifeDelay), WithInboxSize(inbox))
 	}()
 	time.Sleep(3 * time.Millisecond) // senders run while Started is being handled
 	startedBeforeReturn := "1"
@@ -187,7 +190,7 @@ func runLife(t testing.TB, plan []string, spare int, inbox int, stop string) str
 		h.mu.Unlock()
 		return &vLifeRecv{h: h, inc: inc}
 	}
-	e.Spawn(mkTwin, "life", WithID(id), WithMaxRestarts(booms+spare), WithRestartDelay(2*time.Millisecond), WithInboxSize(inbox))
+	e.Spawn(mkTwin, "life", WithID(id), WithMaxRestarts(booms+spare), WithRestartDelay(vLifeDelay), WithInboxSize(inbox))
 	wg.Wait()
 	close(h.holdCh)
 	res := "done"
@@ -284,6 +287,12 @@ func TestVerifLife(t *testing.T) {
 		p, _ := vgen.KV(in, "plan")
 		st, _ := vgen.KV(in, "end")
 		return strings.Split(p, "/"), vgen.KVInt(in, "spare", 0), vgen.KVInt(in, "inbox", 4), st
+	}
+	for i := 0; i < vgen.Scale(0, 1); i++ { // thorough tier only: a restart delay above one second with a backlog of slow messages behind the crash
+		vLifeDelay = 1100 * time.Millisecond
+		plan := []string{"ob" + strings.Repeat("z", 1500), "ooo"}
+		w.Case("slowrestart", fmt.Sprintf("plan=%s spare=0 inbox=4 end=poison delay=1100", strings.Join(plan, "/")), runLife(t, plan, 0, 4, "poison"))
+		vLifeDelay = 2 * time.Millisecond
 	}
 	if in, ok := vgen.ReplayInput(); ok {
 		p, sp, ib, st := parse(in)
